@@ -445,6 +445,29 @@ pub fn op_from_json(j: &Json) -> Result<Operation> {
         "ApplyPermutation" => ApplyPermutation(j["inv"].as_bool().unwrap()),
         "Sort" => Sort(j["key"].as_str().unwrap().to_owned()),
         "Custom" => Custom(serde_json::from_str(j["raw"].as_str().unwrap())?),
+        // library custom operations by name (for hand-written programs): {"op":"CustomNamed","cname":..,"signed":..,"k":..,"key":..}
+        "CustomNamed" => {
+            use ciphercore_base::custom_ops::CustomOperation;
+            use ciphercore_base::ops::comparisons::{Equal, GreaterThan, GreaterThanEqualTo, LessThan, LessThanEqualTo, NotEqual};
+            use ciphercore_base::ops::integer_key_sort::SortByIntegerKey;
+            use ciphercore_base::ops::min_max::{Max, Min};
+            use ciphercore_base::ops::multiplexer::Mux;
+            let sg = j["signed"].as_bool().unwrap_or(false);
+            let c = match j["cname"].as_str().unwrap_or("") {
+                "GreaterThan" => CustomOperation::new(GreaterThan { signed_comparison: sg }),
+                "GreaterThanEqualTo" => CustomOperation::new(GreaterThanEqualTo { signed_comparison: sg }),
+                "LessThan" => CustomOperation::new(LessThan { signed_comparison: sg }),
+                "LessThanEqualTo" => CustomOperation::new(LessThanEqualTo { signed_comparison: sg }),
+                "Equal" => CustomOperation::new(Equal {}),
+                "NotEqual" => CustomOperation::new(NotEqual {}),
+                "Min" => CustomOperation::new(Min { signed_comparison: sg }),
+                "Max" => CustomOperation::new(Max { signed_comparison: sg }),
+                "Mux" => CustomOperation::new(Mux {}),
+                "SortByIntegerKey" => CustomOperation::new(SortByIntegerKey { key: j["key"].as_str().unwrap_or("k").to_owned() }),
+                other => return Err(runtime_error!("unknown custom operation {}", other)),
+            };
+            Custom(c)
+        }
         "Print" => Print(j["msg"].as_str().unwrap().to_owned()),
         "Assert" => Assert(j["msg"].as_str().unwrap().to_owned()),
         _ => return Err(runtime_error!("unknown op {}", name)),
